@@ -175,6 +175,7 @@ def stream_pair(ctx):
     for fi in methods:
         g = ctx.cfg(fi)
         sdefs = ctx.single_defs(fi)
+        rd = cfgmod.reaching_defs(g, [p.lstrip('*') for p in fi.params])
         reads = []
         for n in g.nodes:
             for c in _calls_in(n):
@@ -187,15 +188,22 @@ def stream_pair(ctx):
                     isinstance(rn.ast.targets[0], ast.Name) and rn.ast.value is c:
                 resvar = rn.ast.targets[0].id
 
-            def amount_ok(e):
+            def is_len_of_result(e):
+                return isinstance(e, ast.Call) and isinstance(e.func, ast.Name) and e.func.id == 'len' and \
+                    len(e.args) == 1 and isinstance(e.args[0], ast.Name) and e.args[0].id == resvar
+
+            def amount_ok(e, at):
                 if size is not None and lin(e) == lin(size):
                     return True
                 if resvar is not None:
-                    if isinstance(e, ast.Name) and e.id in sdefs:
-                        e = sdefs[e.id]
-                    if isinstance(e, ast.Call) and isinstance(e.func, ast.Name) and e.func.id == 'len' and \
-                            len(e.args) == 1 and isinstance(e.args[0], ast.Name) and e.args[0].id == resvar:
+                    if is_len_of_result(e):
                         return True
+                    if isinstance(e, ast.Name):
+                        # every definition of the name reaching the update is len(<result>)
+                        defs = [g.nodes[d] for (nm, d) in (rd[at.id] or ()) if nm == e.id]
+                        if defs and all(d.kind == 'stmt' and isinstance(d.ast, ast.Assign) and is_len_of_result(d.ast.value)
+                                        for d in defs):
+                            return True
                 return False
 
             def transfer(n, st, lab):
@@ -203,7 +211,7 @@ def stream_pair(ctx):
                     return True
                 w = _writes_self_attr(n, OFF)
                 if w is not None and st:
-                    if isinstance(w, ast.AugAssign) and isinstance(w.op, ast.Add) and amount_ok(w.value):
+                    if isinstance(w, ast.AugAssign) and isinstance(w.op, ast.Add) and amount_ok(w.value, n):
                         return False
                     if isinstance(w, ast.Assign):
                         # self._offset = self._offset + amount
